@@ -58,10 +58,11 @@ def run_write(pop: tuple[tuple[str, bool, str], ...]) -> tuple[list[tuple[str, s
         for tg in restarts:
             if tg.destination_address != IndividualAddress(TARGET):
                 viols.append(("restart-sent-to-other-address", ctxs))
-        if restarts and exc is None:
-            hit = [d for d in devs if d.restarts]
-            if len(hit) > 1:
-                viols.append(("more-than-one-device-restarted", ctxs))
+        # only devices that answer at the target address can be hit by the restart (with an address conflict that existed before,
+        # every device sharing the address receives it - the procedure cannot tell them apart)
+        for d in devs:
+            if d.restarts and str(d.address) != TARGET:
+                viols.append(("device-at-other-address-restarted", ctxs))
         # the outcome the statement is about: no new address conflict among devices that are present
         after = [str(d.address) for d in devs]
         live = [i for i, (a, pm, b) in enumerate(pop) if b != "silent"]
